@@ -31,7 +31,7 @@ fn main() {
         "c05" => (parse::generate_c05, parse::eval_c05),
         "c07" => (parse::generate_c07, parse::eval_c07),
         "c12" => (parse::generate_c12, parse::eval_c12),
-        "c04" => (print::generate_layout, print::eval_c04),
+        "c04" => (print::generate_c04, print::eval_c04),
         "c13" => (print::generate_layout, print::eval_c13),
         "c08" => (print::generate_c08, print::eval_c08),
         "c15" => (unordered::generate, unordered::eval),
